@@ -161,6 +161,8 @@ def apply(layout, spec):
         return apply_entry(layout, spec["entry"])
     if op == "child":
         return child_of(layout, spec["i"])
+    if op == "getitem_field":
+        return layout[spec["key"]]
     return ops.apply_op(layout, spec)
 
 
@@ -311,7 +313,9 @@ def corner_array(draw, cfg=CFG):
 CORNER_FAMILIES = ["getitem_at", "getitem_range", "getitem", "getitem", "num", "flatten", "flatten", "localindex", "reduce", "reduce", "reduce", "reduce",
                    "sort", "sort", "argsort", "argsort", "rpad", "rpad", "rpad_and_clip", "rpad_and_clip",
                    "combinations", "combinations", "carry", "fillna", "numbers_to_type", "unique", "is_unique", "getitem_nothing", "entry", "entry", "child",
-                   "simplify", "deep_copy", "tojson", "type", "form", "validity", "purelist"]
+                   "simplify", "deep_copy", "tojson", "type", "form", "validity", "purelist",
+                   "merge", "merge", "mergemany", "merge_as_union", "setitem_field", "getitem_field"]
+TWO_OPERAND = ("merge", "mergemany", "merge_as_union", "setitem_field")
 
 
 @st.composite
@@ -395,11 +399,51 @@ def corner_op(draw, T, vals, cls):
         return {"op": f, "value": draw(st.sampled_from([0, 1, -1, 2.5]))}
     if f == "numbers_to_type":
         return {"op": f, "name": draw(st.sampled_from(["int64", "float64", "int32", "float32", "uint8", "bool", "complex128", "int8", "uint64"]))}
+    if f in ("merge", "mergemany"):
+        return {"op": f, "mergebool": draw(st.booleans()), "with": draw(st.sampled_from(["other", "other", "self"]))}
+    if f in ("merge_as_union", "setitem_field"):
+        return {"op": f, "with": draw(st.sampled_from(["other", "self"]))}
+    if f == "getitem_field":
+        return {"op": f, "key": draw(st.sampled_from(record_keys(T) + ["nokey", "0"]))}
     if f == "entry":
         return {"op": f, "entry": draw(st.sampled_from(entries_for(cls)))}
     if f == "child":
         return {"op": f, "i": draw(st.integers(0, 2))}
     return {"op": f}
+
+
+def record_keys(T, out=None):
+    out = [] if out is None else out
+    if T[0] == "record":
+        out += [nm for nm, _ in T[1]]
+        for _, ft in T[1]:
+            record_keys(ft, out)
+    elif T[0] in ("list", "regular", "option"):
+        record_keys(T[1], out)
+    elif T[0] == "union":
+        for t in T[1]:
+            record_keys(t, out)
+    return out
+
+
+def apply2(lay, other, spec):
+    """operations with a second operand (a second generated array, or the first one again: both operands then share buffers)"""
+    op = spec["op"]
+    if spec["with"] == "self" or other is None:
+        other = lay
+    if op == "merge":
+        if lay.mergeable(other, spec["mergebool"]):
+            return lay.merge(other)
+        return lay.merge_as_union(other)
+    if op == "mergemany":
+        return lay.mergemany([other, lay])
+    if op == "merge_as_union":
+        return lay.merge_as_union(other)
+    if op == "setitem_field":
+        if not isinstance(lay, L.RecordArray):
+            raise ValueError("harness: setitem_field applies to RecordArray")
+        return lay.setitem_field("extra", other)
+    raise HarnessError("unknown two-operand op " + op)
 
 
 @st.composite
@@ -447,8 +491,16 @@ def corner_case(draw):
     pre = draw(st.sampled_from([None, None, None, None, [1, None], [0, -1], [1, -1]]))
     if pre is not None:
         vals = vals[pre[0]:pre[1]]
-        return {"part": "corner", "desc": desc, "pre": pre, "spec": draw(corner_op(T, vals, desc["class"]))}
-    return {"part": "corner", "desc": desc, "spec": draw(corner_op(T, vals, desc["class"]))}
+    case = {"part": "corner", "desc": desc, "spec": draw(corner_op(T, vals, desc["class"]))}
+    if pre is not None:
+        case["pre"] = pre
+    if case["spec"]["op"] in TWO_OPERAND and case["spec"]["with"] == "other":
+        # the second operand: the same value under another encoding, or an unrelated array
+        if draw(st.booleans()):
+            case["b"] = draw(gen.encode(T, vals, CFG))
+        else:
+            case["b"] = draw(corner_array())[2]
+    return case
 
 
 def buffer_lengths(d, out=None):
@@ -578,13 +630,20 @@ def run_corner(case):
     before = snapshot_value(lay)
     if before is None or not same_tv(before, (T, vals)):
         raise HarnessError("a freshly built layout does not read back as the description's value")
+    other = before_b = None
+    if "b" in case:
+        other = D.build(case["b"], buffers)
+        snaps = [b.tobytes() for b in buffers]
+        before_b = snapshot_value(other)
+        if before_b is None:
+            raise HarnessError("a freshly built second operand cannot be read back")
     if pre is not None:
         lay = lay[pre[0]:pre[1]]
         before = snapshot_value(lay)
         if before is None or not same_tv(before, (T, vals[pre[0]:pre[1]])):
             # what a slice evaluates to is property C01's concern (e.g. the recorded zero_field_records finding), not this one's
             return {"discarded": "the slice used as operand does not read back as that slice of the value (C01's concern)"}
-    kind, res = ops.outcome(lambda: apply(lay, spec))
+    kind, res = ops.outcome(lambda: apply2(lay, other, spec) if spec["op"] in TWO_OPERAND else apply(lay, spec))
     for b, s in zip(buffers, snaps):
         if b.tobytes() != s:
             raise Violation("purity:" + label, "an input buffer was modified by %s" % spec["op"], clause="C12-purity")
@@ -605,12 +664,17 @@ def run_corner(case):
     if not same_tv(before, after):
         raise Violation("value_changed:" + label, "the input reads back differently after %s" % spec["op"],
                         expected=M.jsonable(before[1]), observed=M.jsonable(after[1]) if after else "unevaluable", clause="C12-purity")
+    if other is not None and not same_tv(before_b, snapshot_value(other)):
+        raise Violation("value_changed:" + label, "the second operand reads back differently after %s" % spec["op"],
+                        expected=M.jsonable(before_b[1]), clause="C12-purity")
     for b, s in zip(buffers, snaps):
         if b.tobytes() != s:
             raise Violation("purity:" + label, "an input buffer was modified while reading the result of %s" % spec["op"], clause="C12-purity")
     cs = corners(desc, T, svals, spec, rclass)
     if pre is not None:
         tags.append("operand:slice_of_built_layout")
+    if spec["op"] in TWO_OPERAND:
+        tags.append("second_operand:" + ("generated" if other is not None else "the first again"))
     return {"tags": tags + ["corner:" + c for c in cs], "nontrivial": bool(cs), "sample_class": "corner:" + spec["op"]}
 
 
